@@ -77,10 +77,12 @@ class StdLib:
     OPAQUE_RE = re.compile(r"std::(__cxx11::)?(basic_string<|map<|vector<|basic_stringstream<|basic_ostream<|basic_ostringstream<|set<|list<|unordered_map<|_Rb_tree_iterator<|_Rb_tree_const_iterator<|pair<)")
 
     def is_opaque(self, canon):
+        extra = self.tr.opts.get("opaque_extra")
+        if extra and re.match(extra, canon):
+            return True
         if not self.tr.opts.get("opaque_std"):
             return False
-        extra = self.tr.opts.get("opaque_extra")
-        return bool(self.OPAQUE_RE.match(canon)) or bool(extra and re.match(extra, canon))
+        return bool(self.OPAQUE_RE.match(canon))
 
     def opaque_value(self, ty):
         """nondeterministic value of C++ type ty (used for results of opaque std operations)"""
@@ -186,6 +188,11 @@ static inline void %(s)s_dtor(%(s)s *s) { if (s->c) { s->c->cnt--; if (s->c->cnt
 static inline void %(s)s_assign(%(s)s *s, %(s)s *o) { %(s)s t; %(s)s_copy(&t, o); %(s)s_dtor(s); *s = t; }
 static inline void %(s)s_assign_move(%(s)s *s, %(s)s *o) { %(s)s t; %(s)s_move(&t, o); %(s)s_dtor(s); *s = t; }
 """ % dict(s=s, T=T, delete=delete)
+        self.model_deps = getattr(self, "model_deps", {})
+        if t.kind == "rec" and t.name in tr.ast.Rname:
+            r = tr.ast.R[tr.ast.Rname[t.name]]
+            if ("ntdtor" in r or "poly" in r) and r.get("dtor"):
+                self.model_deps[s + "_dtor"] = [tr.request(r["dtor"])]
         tr.assume("std::shared_ptr", "reference model: {pointer, control block with an exact owner count}; last owner deletes the object (lib/stdlib.py)")
         return s
 
@@ -237,12 +244,20 @@ static inline void %(s)s_assign_move(%(s)s *s, %(s)s *o) { %(s)s t; %(s)s_move(&
                 self.ensure_vec(t.name)
         OOR = tr.exc_tag("std::out_of_range")
         CAP = int(tr.opts["bounded_vec"])
+        # elements that own something (shared_ptr): copies take a reference, moves empty the source, erased elements are released
+        EL_COPY, EL_MOVED, EL_DROP = "v->b[v->n] = *x;", "", ""
+        if t.kind == "rec" and t.name.startswith("std::shared_ptr<"):
+            sp = self.ensure_sp(t.name)
+            EL_COPY = "%s_copy(&v->b[v->n], x);" % sp
+            EL_MOVED = "x->p = 0; x->c = 0;"
+            EL_DROP = "%s_dtor(&v->b[k]);" % sp
         self.text[s] = """
 /* bounded std::vector code model: {%(T)s b[%(CAP)d]; n; cap} */
 static inline void %(s)s_init(%(s)s *v) { v->n = 0; v->cap = %(CAP)d; }
 static inline void %(s)s_dtor(%(s)s *v) { (void)v; }
 static inline void %(s)s_clear(%(s)s *v) { v->n = 0; }
-static inline void %(s)s_push_back(%(s)s *v, %(T)s *x) { __CPROVER_assert(v->n < %(CAP)d, "BOUND vector longer than the bounded model's capacity"); v->b[v->n] = *x; v->n++; }
+static inline void %(s)s_push_back(%(s)s *v, %(T)s *x) { __CPROVER_assert(v->n < %(CAP)d, "BOUND vector longer than the bounded model's capacity"); %(EL_COPY)s v->n++; }
+static inline void %(s)s_push_back_move(%(s)s *v, %(T)s *x) { __CPROVER_assert(v->n < %(CAP)d, "BOUND vector longer than the bounded model's capacity"); v->b[v->n] = *x; %(EL_MOVED)s v->n++; }
 /* element access goes through a case split over CONCRETE indices: CBMC 6.11 mis-reads through a pointer to an
  * array-containing member of arr[i] when i is symbolic (probe: /verif/DESIGN.md 14.3) */
 static %(T)s *%(s)s_elem(%(s)s *v, unsigned long i) { unsigned long k; __CPROVER_assert(i < %(CAP)d, "vector index inside the bounded model's storage"); for (k = 0; k + 1 < %(CAP)d; k++) if (k == i) return &v->b[k]; return &v->b[%(CAP)d - 1]; }
@@ -253,11 +268,12 @@ static %(T)s *%(s)s_erase_range(%(s)s *v, %(T)s *first, %(T)s *last)
 {
   unsigned long a = (unsigned long)(first - v->b), e = (unsigned long)(last - v->b), k;
   __CPROVER_assert(a <= e && e <= v->n, "erase range lies inside the vector");
+  for (k = 0; k < %(CAP)d; k++) if (k >= a && k < e) { %(EL_DROP)s }
   for (k = 0; k < %(CAP)d; k++) if (k >= e && k < v->n) v->b[k - (e - a)] = v->b[k];
   v->n -= (e - a);
   return first;
 }
-""" % dict(s=s, T=T, CAP=CAP, OOR=OOR)
+""" % dict(s=s, T=T, CAP=CAP, OOR=OOR, EL_COPY=EL_COPY, EL_MOVED=EL_MOVED, EL_DROP=EL_DROP)
         tr.opts.setdefault("stub_may_throw", [])
         tr.opts["stub_may_throw"] = list(tr.opts["stub_may_throw"]) + [n for n in (s + "_at", s + "_resize") if n not in tr.opts["stub_may_throw"]]
         tr.assume("std::vector (bounded code model)", "elements inline in the struct, capacity %d, copied by value; push_back beyond the capacity fails the assertion 'BOUND ...' (lib/stdlib.py)" % CAP)
@@ -589,7 +605,7 @@ static inline void verif_lock_guard_dtor(std_lock_guard_std_mutex *g) { g->m->g_
     def call(self, q, fid, info, e, args, obj):
         tr = self.tr
         rets, ps = fn_ret_type(info["type"])
-        if tr.opts.get("opaque_std"):
+        if tr.opts.get("opaque_std") or tr.opts.get("opaque_extra"):
             # member of an opaque class, or a free function/operator with an opaque argument
             objty = None
             if obj is not None:
@@ -751,9 +767,12 @@ static inline void verif_lock_guard_dtor(std_lock_guard_std_mutex *g) { g->m->g_
                 if m == "clear":
                     return X("call", s + "_clear", [addr(o)], ty=VOID)
                 if m == "push_back":
-                    tr.cur.calls[s + "_push_back"] = True
+                    fn = s + "_push_back"
+                    if canon.startswith("std::vector<") and tr.opts.get("bounded_vec") and parse_type(ps[0]).rv:
+                        fn = s + "_push_back_move"
+                    tr.cur.calls[fn] = True
                     self.use_contract(s + "_grow")
-                    return X("call", s + "_push_back", [addr(o), tr.bind_ref(args[0])], ty=VOID)
+                    return X("call", fn, [addr(o), tr.bind_ref(args[0])], ty=VOID)
             if m in ("resize",):
                 VOID = Ty("builtin", name="void")
                 if len(args) == 1:
